@@ -63,14 +63,17 @@ protected:
             return;
         }
         bool big = socket->path().startsWith("/big");
-        auto answer = [s, big]() {
+        bool huge = socket->path().startsWith("/bighuge") || socket->path().startsWith("/bigtwice");
+        auto answer = [s, big, huge]() {
             if (!s) return;
-            QByteArray body = big ? QByteArray(3 * 1024 * 1024, 'x') : QByteArray("ok");
+            QByteArray body = huge ? QByteArray(12 * 1024 * 1024, 'x') : big ? QByteArray(3 * 1024 * 1024, 'x') : QByteArray("ok");
             s->setHeader("Content-Length", QByteArray::number(body.size()));
             s->write(body);
             s->close();
         };
         if (delay <= 0) answer(); else QTimer::singleShot(delay, this, answer);
+        // path /bigtwice: close() is called again a little later, while the response is still on its way to a slow reader
+        if (socket->path().startsWith("/bigtwice")) QTimer::singleShot(delay + 30, this, [s]() { if (s) s->close(); });
     }
     int delay;
 };
@@ -86,6 +89,7 @@ void rawClient(quint16 port, bool tls, const QByteArray &request, int ending, co
     a.sin_family = AF_INET; a.sin_port = htons(port); a.sin_addr.s_addr = htonl(INADDR_LOOPBACK);
     int one = 1;
     ::setsockopt(fd, IPPROTO_TCP, TCP_NODELAY, &one, sizeof one);
+    if (g_slowMs > 0) { int rcv = 65536; ::setsockopt(fd, SOL_SOCKET, SO_RCVBUF, &rcv, sizeof rcv); }      // a slow reader with a small window
     timeval tv{4, 0};
     ::setsockopt(fd, SOL_SOCKET, SO_RCVTIMEO, &tv, sizeof tv);
     ::setsockopt(fd, SOL_SOCKET, SO_SNDTIMEO, &tv, sizeof tv);
@@ -128,7 +132,7 @@ void rawClient(quint16 port, bool tls, const QByteArray &request, int ending, co
                     break;
                 }
                 out->got.append(buf, n);
-                if (g_slowMs > 0) ::usleep(useconds_t(g_slowMs) * 1000);
+                if (g_slowMs > 0 && out->got.size() / 65536 != (out->got.size() - n) / 65536) ::usleep(useconds_t(g_slowMs) * 1000);     // a pause every 64 KiB
                 if (out->got.size() > (16 << 20)) break;
             }
         }
